@@ -1,7 +1,7 @@
 """C01 — every generated library is valid, importable Python with the requested clients."""
 import json
 from hypothesis import strategies as st
-from harness import common, strategies as S
+from harness import common, strategies as S, model as M
 from harness.engine import Violation, HarnessError
 from props import common_gen as G
 
@@ -26,10 +26,10 @@ def budget(tier):
 
 @st.composite
 def _case(draw):
-    prof = S.profile(rich_comments=draw(st.integers(0, 3)) == 0, p_subpackage=0.4, p_foreign_io=0.3, p_paged=0.25, dep_only_file=0.25)
+    prof = S.profile(rich_comments=draw(st.integers(0, 3)) == 0, p_subpackage=0.4, p_foreign_io=0.3, p_paged=0.25, dep_only_file=0.25, p_keyword_rpc=0.08)
     api = draw(S.apis(prof))
     opts = draw(S.option_sets())
-    extra = draw(st.integers(0, 9))
+    extra = draw(st.integers(0, 10))
     if extra == 0:
         nm = draw(st.sampled_from(["custom", "my_custom_name", "x2"]))
         opts["params"].append(f"python-gapic-name={nm}")
@@ -55,6 +55,17 @@ def _case(draw):
         opts["old_naming"] = True
         opts["snippets"] = False
         opts["ads"] = True
+    elif extra == 6 and "rest" in (opts.get("transport") or ""):
+        # experimental asynchronous REST transport, switched on through the library settings of the service YAML
+        if "grpc" not in opts["transport"]:
+            # known finding F-async-rest-without-grpc: steer away (counted), the finding's replay keeps the shape
+            api["_excluded"] = sorted(set(api.get("_excluded", [])) | {"F-async-rest-without-grpc"})
+            opts["transport"] = "grpc+rest"
+            opts["params"] = [p if not p.startswith("transport=") else "transport=grpc+rest" for p in opts["params"]]
+        host = next((s.get("host") for _f, s, _m in M.all_methods(api)), "lib.acme.com")
+        opts["service_yaml"] = {"type": "google.api.Service", "config_version": 3, "name": host, "publishing": {"library_settings": [
+            {"version": M.common_package(api), "python_settings": {"experimental_features": {"rest_async_io_enabled": True}}}]}}
+        opts["async_rest"] = True
     return {"api": api, "options": opts}
 
 
